@@ -7,6 +7,7 @@ package checks
 
 import (
 	"fmt"
+	"os"
 	"strings"
 	"time"
 
@@ -47,6 +48,10 @@ func runLadder(rep *engine.Report, tot *engine.DFSTotals, tier string, mk func(s
 	var done *ioStage
 	var stages []map[string]any
 	spare := time.Duration(0)
+	if os.Getenv("VERIF_DEV_SHORT_LADDER") != "" {
+		// development aid only (never set by the registered commands): cut the ladder short to reach the side families
+		budgets = []time.Duration{5 * time.Second, time.Second, time.Second, time.Second}
+	}
 	for i, st := range rungs {
 		d := mk(st)
 		d.Budget = budgets[i] + spare
